@@ -38,6 +38,7 @@ LEVEL_TEXT = (
     "the calculator is quiescent, so the caching logic is decided directly rather than through end results. Sampled "
     "histories; held = held on the changes counted in the evidence."
     " Histories include refused calls, batches that end in a refusal followed by the repair, a second likelihood function worked on inside the first one's batches, and functions queried before their alignment was given."
+    " Tied edges are also re-grouped inside one batch."
 )
 LEVEL_NOTE = "trusted: the cells' own calc functions (C02/C05 decide those); the wrapper only reads calculator state and works on copies"
 TECHNIQUE = "runtime monitoring: invariant at a wrapped quiescent point (shadow re-evaluation of Calculator.change) + history vs fresh-object comparison"
